@@ -79,6 +79,11 @@ func Member(g *groups.G, in []byte, pt kyber.Point) string {
 		if !curves.InQR512(beInt(in)) {
 			return "value is not in the order-q subgroup mod p"
 		}
+	case g.Family == "residue-3072":
+		x := beInt(in)
+		if x.Sign() <= 0 || x.Cmp(groups.Res3072P) >= 0 || new(big.Int).Exp(x, groups.Res3072Q, groups.Res3072P).Cmp(big.NewInt(1)) != 0 {
+			return "value is not a quadratic residue mod the 3072-bit prime"
+		}
 	case g.Family == "residue-r84":
 		x := beInt(in)
 		if x.Sign() <= 0 || x.Cmp(groups.ResR84P) >= 0 || new(big.Int).Exp(x, groups.ResR84Q, groups.ResR84P).Cmp(big.NewInt(1)) != 0 {
